@@ -788,7 +788,7 @@ class Lexer:
             msg,
             token=ErrorToken(
                 type_=TokenType.ERROR,
-                index=min(self.pos, len(self.source) - 1),
+                index=min(self.start, len(self.source) - 1),
                 value=self.source[self.start : self.pos],
                 markup_start=self.markup_start,
                 markup_stop=self.pos,
